@@ -343,7 +343,9 @@ Definition try_block_expr : M unit :=
 
 Definition return_expr : M cmarker :=
   assert_at K_RETURN_KW 14 ;;; m <- start ;; bump_any ;;;
-  f <- at_ts EXPR_FIRST ;; when_ f (ign expr) ;;; complete m K_RETURN_EXPR.
+  f <- at_ts EXPR_FIRST ;; k <- current ;; la <- nth_tok 1 ;;
+  when_ (f || (is_classical_type k && (keq la K_L_PAREN || keq la K_L_BRACK))) (ign expr) ;;;
+  complete m K_RETURN_EXPR.
 Definition box_expr : M cmarker :=
   assert_at K_BOX_KW 15 ;;; m <- start ;; bump K_BOX_KW ;;;
   f <- at_ts EXPR_FIRST ;; when_ f (ign expr) ;;; complete m K_BOX_EXPR.
